@@ -206,3 +206,16 @@ CHECKS["C18"] = dict(
           "shapes, 2 hook shapes; thorough: 18 scenarios with the hierarchy symbolic as well. Here the solver is the bounded model checker's "
           "bookkeeper (finite domain), as DESIGN.md states. Two defects found by this check were repaired (3a088b7, c16687c)."),
 )
+
+CHECKS["C19"] = dict(
+    engine="symx", category="model_checking", design_ref="DESIGN.md §6 C19",
+    technique="pre-emption points (index of the executed ovld source line at which thread A loses the processor to thread B; optionally a second point in B) as solver integers enumerated to exhaustion with path-condition blocking (z3); real threads under a cooperative baton driven by sys.monitoring LINE events; differential oracle against solitary and sequential runs",
+    text=("Two real threads call the same function (racing first calls with equal / different argument types, racing cache misses, a call racing a "
+          "call_next chain, a call racing resolve()). A baton makes exactly one of them runnable; every executed ovld source line of thread A is a "
+          "possible switch point and the solver enumerates them all (one path class per schedule, plus 'no pre-emption'); a thread that would block on "
+          "the function's build lock hands the turn back. Each thread's outcome must equal its outcome alone on a fresh function and afterwards every "
+          "probe must equal the sequentially used function; a hang is a violation."),
+    note=("Bounds: 2 threads, 1 pre-emption at every line (quick: 5 scenarios, ~7800 schedules, exhaustive; thorough: 8 scenarios plus 2 pre-emptions on "
+          "every 40th first switch point), fixed hierarchy, line granularity (switches inside a line are outside the claim). The solver's role is "
+          "finite-domain bookkeeping. Defect repaired: 537fde9 (unsynchronised lazy build)."),
+)
